@@ -149,3 +149,63 @@ func H11_range() {
 		vhReach("empty-range")
 	}
 }
+
+// H05_error: a stream whose block k carries a damaged checksum field (checksum 32 bits): the Read call covering
+// block k must report the error, and the bytes delivered by ALL calls (before and after the error) must be a
+// correct prefix of the input that stops before block k: no byte of the failed block or of any later block.
+func H05_error() {
+	JW := vhParam("jobsW", 1)
+	JR := vhParam("jobsR", 2)
+	M := vhParam("maxBlocks", 3)
+	R := vhB
+	nb := vhCase("blocks", 1, M)
+	N := nb * vhB
+	data := vhArb("data", N)
+	hint := vhI64("sizeHint")
+	vhAssume(hint >= 0)
+	tape := vhWriteTape(data, JW, 32, hint)
+	k := vhCase("badBlock", 1, M)
+	if k > nb {
+		return
+	}
+	// locate the k-th payload event and flip one bit of its stored checksum (bytes after mode + length bytes)
+	seen := 0
+	for i := range tape {
+		if tape[i].kind == 2 {
+			seen++
+			if seen == k {
+				d := tape[i].data
+				dataSize := 1 + int((d[0]>>5)&3)
+				d[1+dataSize] ^= 1 << uint(vhCase("bit", 0, 1)*7)
+			}
+		}
+	}
+	ibs := &vhIbs{tape: tape, failAt: -1}
+	ctx := map[string]any{"jobs": uint(JR)}
+	r, err := NewReaderWithCtx2(ibs, ctx)
+	vhAssert(err == nil, "reader-constructed")
+	out := make([]byte, (M+2)*vhB)
+	total := 0
+	sawErr := false
+	for calls := 0; calls < M+4; calls++ {
+		n, err := r.Read(out[total : total+R])
+		total += n
+		if err != nil && err != stdio.EOF {
+			sawErr = true
+		}
+		if err == stdio.EOF && n == 0 {
+			if !sawErr {
+				vhReach("eof-before-error")
+			}
+		}
+	}
+	vhAssert(sawErr, "damaged-block-is-reported")
+	vhAssert(total <= (k-1)*vhB, "nothing-delivered-from-failed-block-or-beyond")
+	j := vhInt("probe")
+	if total > 0 {
+		vhAssume(vhAnd(j >= 0, j < total))
+		vhAssert(out[j] == data[j], "delivered-bytes-are-correct-prefix")
+		vhReach("prefix-checked")
+	}
+	vhReach("checked")
+}
